@@ -22,7 +22,7 @@ const HEADER: &str = r#"From ZV.Common Require Import Base Run.
 From ZV.C12 Require Import Spec Model.
 Open Scope nat_scope.
 Definition alg_of (k : N) : alg :=
-  match k with 0%N => SAIS | 1%N => DivSufSort | 2%N => DC3 | 3%N => LarssonSadakane | _ => Adaptive end.
+  match k with 0%N | 5%N => SAIS | 1%N => DivSufSort | 2%N => DC3 | 3%N => LarssonSadakane | _ => Adaptive end.
 Fixpoint eqb_lnat (a b : list nat) : bool :=
   match a, b with
   | [], [] => true
@@ -46,6 +46,9 @@ Definition ok (c : case_t) : bool :=
   && match bw with None => true | Some b => eqb_ln (bwt t sa) b end
   && forallb (fun q : pat_t =>
        let '(p, (l, r), (l2, c2)) := q in
+       if N.eqb a 5 then (* compression::suffix_array: its own copy of the loops *)
+         let '(ml, mr) := w_find_pattern_range t sa p in Nat.eqb ml l && Nat.eqb mr r
+       else
        let '(ml, mr) := search_range t sa p in
        let '(ml2, mc2) := search t sa p in
        Nat.eqb ml l && Nat.eqb mr r && Nat.eqb ml2 l2 && Nat.eqb mc2 c2) pats.
@@ -327,7 +330,10 @@ fn compress_case(cx: &mut Ctx, preset: usize, t: &[u8], pats: &[Vec<u8>], force_
         } else if probes.len() == len { obs.lcp = Some(lcp_o.iter().map(|(_, l)| l.unwrap()).collect()); }
     }
     for p in pats {
-        if p.is_empty() { continue; } // the wrapper documents "empty pattern -> no result"
+        if p.is_empty() { // the wrapper documents "empty pattern -> no result": compared with the model only
+            if let Ok(range) = guarded(|| e.find_pattern_range(t, p)) { obs.pats.push((p.clone(), range, (0, 0))); }
+            continue;
+        }
         let r = guarded(|| (e.find_pattern_range(t, p), e.find_pattern(t, p), e.count_pattern(t, p)));
         match r {
             Err(m) => cx.sum.fail(&cell, if verdict.is_ok() { None } else { class }, cj.clone(), &format!("find_pattern({:?}) panicked: {}", p, m)),
@@ -342,7 +348,7 @@ fn compress_case(cx: &mut Ctx, preset: usize, t: &[u8], pats: &[Vec<u8>], force_
             }
         }
     }
-    push_coq(cx, 0, 10_000, 0, t, &obs, &cj, force_coq);
+    push_coq(cx, 5, 10_000, 0, t, &obs, &cj, force_coq);
 }
 
 /// The PA-Zip dictionary's matcher: the rank range it reports for the longest prefix of `q` that
